@@ -103,3 +103,27 @@ package store
 //@   props C24
 //@   requires 0 <= i && i < len(dl) && 0 <= j && j < len(dl)
 //@   ensures result == (dl[i].Score < dl[j].Score)
+
+// PrevCmd: the search starts STRICTLY before `upto`: Seek finds the first key at
+// or after upto; whatever that key is (upto itself, or a later one because upto
+// was deleted) the cursor steps back once; if there is no such key it starts from
+// the last entry. From there it only walks backwards.
+//@ func dbStore.PrevCmd$1
+//@   props C24
+//@   nosafety
+//@   skip pre:unmarshalSeq
+//@   log marshalSeq Cursor.Seek Cursor.Last Cursor.Prev Cursor.Next Cursor.First
+//@   loop 1 invariant ncalls >= 3 && ncallsof("Cursor.Next") == 0 && ncallsof("Cursor.First") == 0 && ncallsof("Cursor.Seek") == 1 && ncallsof("Cursor.Last") <= 1
+//@   exit [seeks-to-upto] ncalls >= 2 && callis(0, "marshalSeq") && (upto >= 0 ==> callarg(0).(uint64) == upto) && callis(1, "Cursor.Seek") && callarg(1) === callres(0)
+//@   exit [never-uses-the-key-at-or-after-upto-itself] ncalls >= 3 && (callis(2, "Cursor.Prev") || callis(2, "Cursor.Last"))
+//@   exit [only-walks-backwards] ncallsof("Cursor.Next") == 0 && ncallsof("Cursor.First") == 0 && ncallsof("Cursor.Seek") == 1 && ncallsof("Cursor.Last") <= 1
+
+// NextCmd: the search starts AT `from` (inclusive) and only walks forwards.
+//@ func dbStore.NextCmd$1
+//@   props C24
+//@   nosafety
+//@   skip pre:unmarshalSeq
+//@   log marshalSeq Cursor.Seek Cursor.Last Cursor.Prev Cursor.Next Cursor.First
+//@   loop 1 invariant ncalls >= 2 && ncallsof("Cursor.Prev") == 0 && ncallsof("Cursor.Last") == 0 && ncallsof("Cursor.First") == 0 && ncallsof("Cursor.Seek") == 1
+//@   exit [seeks-to-from] ncalls >= 2 && callis(0, "marshalSeq") && (from >= 0 ==> callarg(0).(uint64) == from) && callis(1, "Cursor.Seek") && callarg(1) === callres(0)
+//@   exit [only-walks-forwards] ncallsof("Cursor.Prev") == 0 && ncallsof("Cursor.Last") == 0 && ncallsof("Cursor.First") == 0 && ncallsof("Cursor.Seek") == 1
